@@ -17,6 +17,7 @@ WITNESSES = ["TransactionBorrowsHandle"]
 def run(ctx):
     F = ctx.facts
     ctx.rule("C09.1", "Db::begin_write dominates Db::snapshot wherever both feed one statement execution on a shared handle")
+    ctx.rule("C09.2", "begin_write takes the writer mutex and hands its guard to the transaction; compaction and close-time checkpoint hold it across their log writes")
     n = 0
     for i, b in sorted(F.bodies.items()):
         if not i.startswith(("nervusdb", "<nervusdb")) or i.startswith(("nervusdb_storage", "nervusdb_query", "<nervusdb_storage", "<nervusdb_query", "nervusdb_v2_crash_test", "ndb_import")):
@@ -39,3 +40,22 @@ def run(ctx):
                        "update is lost", s.loc(), sample={"fn": i, "snapshot": s.loc(), "begin_write": [x.loc() for x in begins]})
     ctx.floor("C09.1", "functions pairing snapshot and begin_write", n, 2)
     ctx.body("nervusdb_capi::execute_write_count")
+
+    from .. import locks
+    from .. import model as M
+    bw = ctx.body(M.BEGIN_WRITE)
+    bl = locks.BodyLocks(bw)
+    wl = [a for a in bl.acqs if a.cls == "Mutex<()>" and a.mode == "lock"]
+    ctx.instance("C09.2", "begin_write: writer-mutex acquisitions=%d, guard moved into the returned transaction=%s" % (len(wl), [a.escapes for a in wl]))
+    ctx.oblige(bool(wl) and any(a.escapes for a in wl), "C09.2", "begin_write:writer-lock-not-held-by-transaction",
+               "begin_write does not acquire the writer mutex (blocking `lock`) or does not store its guard in the transaction: two write "
+               "transactions can be open at once", bw.file)
+    for fn in (M.COMPACT, M.CHECKPOINT_ON_CLOSE):
+        b = ctx.body(fn)
+        fl = locks.BodyLocks(b)
+        acqs = [a for a in fl.acqs if a.cls == "Mutex<()>" and a.mode == "lock"]
+        sinks = [c for c in b.calls() if c.name in (M.WAL_APPEND, M.WAL_REWRITE)] + [c for c, _ in M.publication_sites(b)]
+        held = all(any(fl.must_hold(a, c.bb) for a in acqs) for c in sinks)
+        ctx.instance("C09.2", "%s: writer mutex held across %d log writes / publications=%s" % (fn.split("::")[-1], len(sinks), held))
+        ctx.oblige(bool(acqs) and held, "C09.2", fn + ":not-under-writer-lock",
+                   "maintenance writes the log / republishes state without holding the writer mutex: it can interleave with an open write transaction", b.file)
